@@ -8,6 +8,7 @@ mod c11;
 mod c12;
 mod c16;
 mod c19;
+mod c20;
 mod net;
 mod params;
 mod coqfmt;
@@ -138,6 +139,10 @@ fn main() {
         "c09" => {
             let o = c09::generate(seed, scale);
             o.write(&out, "c09", "From MLV Require Import model.Bytes model.Inflight model.Check09.", "c09case", "run09", shards);
+        }
+        "c20" | "c06" => {
+            let o = c20::generate(seed, scale, cmd);
+            o.write(&out, cmd, "From MLV Require Import model.Bytes model.Cache model.Check20.", "c20case", "run20", shards);
         }
         "c16" => {
             let o = c16::generate(seed, scale);
